@@ -391,23 +391,46 @@ def standard_proof_phase(ctx, gen_files_used=()):
             snap = os.path.join(SNAP, os.path.basename(f))
             if os.path.exists(snap) and open(snap).read() != open(f).read():
                 changed.append(os.path.basename(f))
+        # the translation named in the build log (imports of the failing files, error messages) is tried first
+        changed.sort(key=lambda f: (0 if ('Gen.' + f[:-2]) in log or (f[:-2] + '.') in log else 1, f))
+        regen_text = {f: open(os.path.join(COQ, 'Gen', f)).read() for f in changed}
+        msg = ('the proofs about the model regenerated from the current source no longer check '
+               '(files failing to build: %s)' % (failing or '?'))
+
+        def memo(files):
+            try:
+                os.makedirs(_BADGEN, exist_ok=True)
+                with open(os.path.join(_BADGEN, _REGEN_KEY[0] + '.json'), 'w') as fh:
+                    json.dump({f: msg for f in files}, fh)
+            except OSError:
+                pass
+        # one file at a time first (only the responsible translation is replaced), then all of them together
+        fixed = None
         for fname in changed:
             _fallback(fname)
-            FALLBACK[fname] = ('the proofs about the model regenerated from the current source no longer check '
-                               '(files failing to build: %s)' % (failing or '?'))
             good2, failing2, log2 = coq_make()
             if good2:
-                good, log = True, log2
-                ctx.extra['coq_build_failures_with_regenerated_model'] = failing or ['?']
-                failing = []
-                try:
-                    os.makedirs(_BADGEN, exist_ok=True)
-                    with open(os.path.join(_BADGEN, _REGEN_KEY[0] + '.json'), 'w') as fh:
-                        json.dump({f: FALLBACK[f] for f in changed if f in FALLBACK}, fh)
-                except OSError:
-                    pass
+                fixed = [fname]
                 break
-            failing = failing2
+            write_if_changed(os.path.join(COQ, 'Gen', fname), regen_text[fname])
+        if fixed is None and len(changed) > 1:
+            for fname in changed:
+                _fallback(fname)
+            good2, failing2, log2 = coq_make()
+            if good2:
+                fixed = list(changed)
+            else:
+                for fname in changed:
+                    write_if_changed(os.path.join(COQ, 'Gen', fname), regen_text[fname])
+        if fixed is not None:
+            for fname in fixed:
+                FALLBACK[fname] = msg
+            good, log = True, log2
+            ctx.extra['coq_build_failures_with_regenerated_model'] = failing or ['?']
+            failing = []
+            memo(fixed)
+        elif changed:
+            coq_make()      # back to the regenerated files: the failure stands
     # Only what Props/<pid>.v depends on decides this property: a generator or proof
     # file of another slice that fails is recorded, and becomes this property's
     # broken obligation exactly when Props/<pid>.v no longer compiles because of it.
